@@ -10,7 +10,19 @@ PROPS = {
                 explanation="Chain find_vertices -> connect_coding_graph -> encode -> every k-window accepted; constructor clause.",
                 technique="chain of contracts (mask <=> filter, arcs inside mask, strand is a walk, k-mer shift lemma) + bounded chain driver"),
     "C03": dict(title="The coding graph is the largest closed subgraph, or a ValueError", level="other", bounded=["C03"], design="8/C03",
-                explanation="connect_coding_graph against the executable greatest-closed-subset oracle.",
+                proof=["dsw.spiderweb.connect_coding_graph#t234", "dsw.graphized.obtain_latters", "lemma.ssum_zero_iff", "lemma.ssum_mono_eq",
+                       "lemma.ipow_mono"],
+                explanation="PROVED for thresholds 2, 3, 4 on the real connect_coding_graph (whole function): with an ARBITRARY closed subset S of the "
+                            "mask as a universally quantified ghost input, the returned vertex set is inside the mask, closed (every retained vertex "
+                            "keeps >= t retained successors), contains S (hence is the greatest closed subset), is non-empty, the accessor is exactly "
+                            "its induced graph, the returned description marks exactly the vertices with arcs, ValueError is raised only when every "
+                            "closed subset is empty, the trimming loop terminates (variant = number of marked vertices) and the mask parameter is "
+                            "never stored into.  BOUNDED (never counted as proved): the threshold-1 clean-up phase (networkx find_cycle, try/except: "
+                            "outside the engine), monotonicity in the mask and agreement with latter-map trimming (remove_useless).",
+                demoted=["threshold 1: information-free-cycle removal phase (networkx) - bounded B2, all 65,536 order-2 masks in the thorough tier",
+                         "monotonicity and latter-map trimming agreement - bounded B2"],
+                claim="Mixed: thresholds 2..4 deductive for all k >= 1 and all masks (no bound); threshold 1 and the two relational clauses bounded.",
+                note="Trusted: numpy zeros/ones/where/sum/fancy-indexing contracts (DESIGN 3). Bounded part: exhaustive order-2 masks only in the thorough tier.",
                 technique="greatest-fixed-point loop contract on connect_coding_graph + exhaustive order-2 run-time contract checking"),
     "C04": dict(title="Encoding is total, dead-end free and tight on generated graphs", level="other", bounded=["C04"], design="8/C04",
                 explanation="Termination/tightness of encode on generated graphs.",
@@ -33,8 +45,17 @@ PROPS = {
     "C10": dict(title="Repair always returns", level="other", bounded=["C10"], design="8/C10",
                 explanation="Termination / exception freedom of repair_dna.",
                 technique="loop variant of the scan loop (progress on every path) + bounded exhaustive short strands"),
-    "C11": dict(title="Vertex discovery and the valid graph mirror the filter", level="other", bounded=["C11"], design="8/C11",
-                explanation="find_vertices / connect_valid_graph.",
+    "C11": dict(title="Vertex discovery and the valid graph mirror the filter", level="proof", bounded=["C11"], design="8/C11",
+                proof=["dsw.spiderweb.find_vertices", "dsw.spiderweb.connect_valid_graph#mask", "dsw.spiderweb.connect_valid_graph#none",
+                       "dsw.operation.number_to_dna#int", "dsw.graphized.obtain_latters",
+                       "lemma.ssum_zero_iff", "lemma.ipow_mono", "lemma.pv_zero", "lemma.pv_leading_zeros", "lemma.pv_ext", "lemma.pv_store_frame"],
+                explanation="find_vertices against an ABSTRACT filter (uninterpreted verdict on the i-th k-mer; only the documented interface "
+                            "valid(self, dna_string) is known, and the call site must bind to it): mask[i] <=> accepts(i) for all i < 4^k, ValueError "
+                            "exactly when nothing is accepted; connect_valid_graph: entry (u, j) is the j-th shift successor exactly when u and it "
+                            "are both marked, else -1, ValueError exactly for an all-zero mask / None; the mask parameter is never stored into.",
+                claim="Deductive: all obligations discharged for every filter (as an uninterpreted predicate), every k >= 1 and every 0/1 mask.",
+                note="Trusted: numpy zeros/ones/sum/indexing contracts, the quotient sum/len compared with 0 read as the sign of the numerator; "
+                     "a user filter's verdict is assumed to be a function of the k-mer only (no hidden state).",
                 technique="postconditions with abstract filter predicate + bounded exhaustive order-2 masks"),
     "C12": dict(title="The local filter implements its window predicate", level="other", bounded=["C12"], design="8/C12",
                 explanation="LocalBioFilter.valid against filter_spec and its metamorphic lemmas.",
